@@ -4,7 +4,7 @@ import time
 
 from .sched import S
 from .harness import EXCEPTION_KINDS, ODD_EXCEPTION_KINDS, BASE_KINDS, FALSY_VALUES, TRUTHY_VALUES
-from .common import gen_stalls, base_knobs, bystanders, liveness_bound, FL
+from .common import gen_stalls, gen_slow_starts, base_knobs, bystanders, liveness_bound, FL
 
 TIMES = [0.0, 0.0, 0.001, 0.05, 0.25, 0.3, 0.5, 1.0]
 
@@ -13,6 +13,11 @@ def gen(seed, tier):
     rng = random.Random(seed)
     knobs = base_knobs(rng, tier)
     knobs["stalls"] = gen_stalls(rng)
+    knobs["slow_starts"] = gen_slow_starts(rng)
+    if rng.random() < 0.08:
+        sc = gen_double(rng, knobs)
+        sc["seed"] = seed
+        return sc
     relaxed = rng.random() < (0.15 if tier == "quick" else 0.25)
     payloads = bystanders(rng, rng.randint(0, 6), allow_spin=rng.random() < 0.3)
     drivers = []
@@ -74,7 +79,13 @@ def gen(seed, tier):
     triggers = []
     if relaxed:
         trig = rng.choice(["sigint", "shutdown"])
-        dscript += [["sleep", rng.choice([0.0, 0.1, 0.3, 1.0])], [trig]]
+        gap = rng.choice([0.0, 0.1, 0.3, 1.0])
+        if rng.random() < 0.35:
+            # the stop request lands within a few ms of the first failure: the second
+            # termination finds the handling of the first one half way through
+            gap = max(0.0, min(p_["steps"][0][1] if p_["steps"][0][0] == "sleep" else 0.0 for p_ in payloads if p_.get("fails")) + rng.choice([-0.003, -0.002, -0.001, 0.0, 0.001, 0.002, 0.003, 0.005]))
+            dscript = [dscript[0]] + [st for st in dscript[1:] if st[0] != "sleep"]
+        dscript += [["sleep", gap], [trig]]
         triggers.append(trig)
     mode = "accept"
     if not relaxed and not any(p.get("via", "").startswith("service") for p in payloads) and rng.random() < 0.25:
@@ -84,6 +95,26 @@ def gen(seed, tier):
     rng.shuffle(payloads)
     knobs["horizon"] = 4.0 + tmax + knobs["accept_delay"] + 5.0 + sum(p.get("cleanup_async", 0) for p in payloads) + 3.0
     return {"prop": "C01", "seed": seed, "knobs": knobs, "payloads": payloads, "drivers": drivers, "relaxed": relaxed, "mode": mode, "grace": 1.5}
+
+
+def gen_double(rng, knobs):
+    """Two terminations of different kinds within a few ms: a stop request (SIGINT / shutdown) and a
+    payload that interrupts (KeyboardInterrupt, SystemExit) or fails - the second one arrives while
+    the first one is being handled, and helper threads created for the cleanup may start late."""
+    t0 = rng.choice([0.05, 0.3])
+    fl = rng.choice(FL)
+    kind = rng.choice(["KeyboardInterrupt", "KeyboardInterrupt", "SystemExit", "LookupError", "ret:0"])
+    step = ["return", kind[4:]] if kind.startswith("ret:") else ["raise", kind]
+    payloads = bystanders(rng, rng.randint(0, 3))
+    payloads.append({"id": "f0", "flavour": fl, "via": rng.choice(["queued", "service-pre"]), "steps": [["sleep", t0], step], "fails": True, "trigger": True})
+    gap = max(0.0, t0 + rng.choice([-0.003, -0.002, -0.001, 0.0, 0.001, 0.002, 0.003]))
+    dscript = [["wait-running"], ["sleep", gap], [rng.choice(["sigint", "sigint", "shutdown"])]]
+    knobs["strategy"] = rng.choice([{"kind": "random", "p": 0.2}, {"kind": "random", "p": 0.05}, {"kind": "pct", "d": 2, "len": 2500}])
+    if rng.random() < 0.6:
+        knobs["slow_starts"] = [{"after": True, "count": rng.choice([1, 2, 3]), "dur": rng.choice([0.002, 0.005, 0.02])}]
+    knobs["horizon"] = 4.0 + t0 + knobs["accept_delay"] + 8.0
+    rng.shuffle(payloads)
+    return {"prop": "C01", "seed": 0, "knobs": knobs, "payloads": payloads, "drivers": [{"id": "d0", "script": dscript}], "relaxed": True, "mode": "accept", "grace": 1.5}
 
 
 def main(h):
